@@ -248,6 +248,56 @@ theorem pieces_safe (env : Env) (a : Args) (ps : List Piece) :
       simp only [renderPieces]
       rw [run_append, h1 b (hb p (by simp)) hok'.1, h2 b (fun q hq => hb q (by simp [hq])) hok'.2]
 
+/-- A site whose text mentions no client value always passes the run part of the check. -/
+theorem atoms_noClient_run (env : Env) (a : Args) (cur : Option (List Char)) (xs : List Atom)
+    (h : xs.any atomIsClientText = false) : ∀ s, (atomsSafeRun env a cur s xs).isSome = true := by
+  induction xs with
+  | nil => intro s; rfl
+  | cons x xs ih =>
+    intro s
+    have hx : atomIsClientText x = false ∧ xs.any atomIsClientText = false := by
+      simpa [List.any_cons] using h
+    cases x with
+    | lit t => simpa [atomsSafeRun, atomSafeStep] using ih hx.2 _
+    | srv n => simpa [atomsSafeRun, atomSafeStep] using ih hx.2 _
+    | cli src w e => simp [atomIsClientText] at hx
+
+theorem list_noClient_run (env : Env) (a : Args) (sep : List Char) (elem : List Atom)
+    (h : elem.any atomIsClientText = false) (xs : List String) :
+    ∀ s, (listSafeRun env a sep elem s xs).isSome = true := by
+  induction xs with
+  | nil => intro s; rfl
+  | cons x r ih =>
+    intro s
+    cases r with
+    | nil => simpa [listSafeRun] using atoms_noClient_run env a (some x.toList) elem h s
+    | cons y r' =>
+      have h1 := atoms_noClient_run env a (some x.toList) elem h s
+      cases hx : atomsSafeRun env a (some x.toList) s elem with
+      | none => simp [hx] at h1
+      | some s1 => simpa [listSafeRun, hx] using ih (run s1 sep).1
+
+theorem clientFree_safeRun (env : Env) (a : Args) (ps : List Piece)
+    (h : ps.any pieceHasClientText = false) : ∀ s, (piecesSafeRun env a s ps).isSome = true := by
+  induction ps with
+  | nil => intro s; rfl
+  | cons p ps ih =>
+    intro s
+    have hp : pieceHasClientText p = false ∧ ps.any pieceHasClientText = false := by
+      simpa [List.any_cons] using h
+    have h1 : (pieceSafeStep env a s p).isSome = true := by
+      cases p with
+      | atom x =>
+        cases x with
+        | lit t => simp [pieceSafeStep, atomSafeStep]
+        | srv n => simp [pieceSafeStep, atomSafeStep]
+        | cli src w e => simp [pieceHasClientText, atomIsClientText] at hp
+      | list src name sep elem =>
+        exact list_noClient_run env a sep.toList elem (by simpa [pieceHasClientText] using hp.1) _ s
+    cases hs : pieceSafeStep env a s p with
+    | none => simp [hs] at h1
+    | some s1 => simpa [piecesSafeRun, hs] using ih hp.2 s1
+
 theorem sameLens_spec (a b : Args) (s : Site) (h : sameLens a b s = true) :
     ∀ p ∈ s.pieces, pieceLen a b p := by
   intro p hp
